@@ -19,6 +19,7 @@ inductive SOp where
   | isetop (op : SetOp) (s : Nat) (o : Other)
   | pop (s : Nat)
   | clear (s : Nat)
+  | kill (a : Nat)
 
 /-- the state after an operation (a raising call leaves the store as it was) -/
 def applyOp (st : Store) : SOp → Store
@@ -35,6 +36,7 @@ def applyOp (st : Store) : SOp → Store
   | .isetop op s o => isetop st op s o
   | .pop s => match pop st s with | .ok r => r.1 | .error _ => st
   | .clear s => clear st s
+  | .kill a => kill st a
 
 theorem set_wf {st : Store} (h : st.WF) (s : Nat) (l : List Nat) (hl : l.Nodup) :
     Store.WF { st with sets := st.sets.set s l } := by
@@ -92,5 +94,10 @@ theorem applyOp_wf {st : Store} (h : st.WF) (op : SOp) : (applyOp st op).WF := b
       rw [hl] at this
       exact set_wf h _ _ (List.nodup_cons.mp this).2
   | clear s => exact set_wf h _ _ (by rw [clearL_eq_nil]; exact List.nodup_nil)
+  | kill a =>
+    intro x hx
+    simp only [applyOp, kill, List.mem_map] at hx
+    obtain ⟨l, hl, rfl⟩ := hx
+    exact (h l hl).erase a
 
 end Mesa.ASet
